@@ -55,6 +55,7 @@ theorem xfer_entry {cfg : Config} {s s' : State} {e : Event} (ha : InvA s) (h : 
     · exact xe_one (r0 := (s.thr t).r) (fun q hq => by simp [hq]) (by simp) r hw
     · exact xe_same rfl r hw
     · exact xe_same rfl r hw
+    · exact xe_same rfl r hw
     · dsimp only at hw ⊢
       by_cases hq : (if (s.thr t).bcast = true then s.queue else sigSelect s.recs s.queue).contains r = true
       · simp only [hq, if_true] at hw; cases hw
@@ -70,6 +71,7 @@ theorem xfer_entry {cfg : Config} {s s' : State} {e : Event} (ha : InvA s) (h : 
     refine xe_one (r0 := (s.thr t).r) (fun q hq => by simp [hq]) ?_ r hw
     simp; cases (s.recs (s.thr t).r).stat <;> simp
   | relDeqW t new obs n hl hh hnew hn hsp => exact xe_same rfl r hw
+  | relDbg t new obs n hl hh hnew hn hsp => exact xe_same rfl r hw
   | wHeadExit t r0 y hy hl hr hw' =>
     exact xe_one (r0 := r0) (fun q hq => by simp [hq]) (by simp) r hw
   | wCmpEq t r0 obs hl hr ho he =>
@@ -178,6 +180,9 @@ theorem mu_leave {cfg : Config} {s s' : State} {e : Event} (h : Tr cfg s e s') (
     refine ml_actor (t0 := t0) (fun u hu => by simp [hu]) ?_ u hm
     intro h; rw [hl] at h; cases h
   | relDeqW t0 new obs n hl hh hnew hn hsp =>
+    refine ml_actor (t0 := t0) (fun u hu => by simp [hu]) ?_ u hm
+    intro h; rw [hl] at h; cases h
+  | relDbg t0 new obs n hl hh hnew hn hsp =>
     refine ml_actor (t0 := t0) (fun u hu => by simp [hu]) ?_ u hm
     intro h; rw [hl] at h; cases h
   | wHeadExit t0 r y hy hl hr hw =>
